@@ -77,3 +77,140 @@ package prefilter
 //@   loop 2: invariant forall k :: 0 <= k && k <= rangeindex ==> !occAt(haystack, t.patterns[k], i)
 //@   loop 2: invariant forall j :: 0 <= j && j < i ==> !teddyOcc(t, haystack, j)
 //@   loop 2: decreases rangelen - rangeindex
+
+// fingerprint scan (assembly on amd64, scalar fallback elsewhere): ASSUMED shape contract
+//@ trusted func (*Teddy).findSIMD
+//@   requires wfTeddy(t)
+//@   ensures pos == -1 || (0 <= pos && pos < len(haystack))
+
+//@ func (*Teddy).findMatchScalar
+//@   props C16 C07 C05
+//@   requires wfTeddy(t) && 0 <= start && start <= 140737488355328 && len(haystack) <= 140737488355328
+//@   ensures result0 == -1 ==> result1 == -1 && (forall i :: 0 <= i ==> !teddyOcc(t, haystack, i))
+//@   ensures result0 != -1 ==> start <= result0 && teddyOcc(t, haystack, result0 - start) && (forall i :: 0 <= i && i < result0 - start ==> !teddyOcc(t, haystack, i)) && result0 <= result1 && result1 <= start + len(haystack)
+//@   ensures result0 != -1 ==> (exists k :: 0 <= k && k < len(t.patterns) && occAt(haystack, t.patterns[k], result0 - start) && result1 == result0 + len(t.patterns[k]))
+//@   loop 1: invariant 0 <= i
+//@   loop 1: invariant forall j :: 0 <= j && j < i ==> !teddyOcc(t, haystack, j)
+//@   loop 1: decreases len(haystack) - t.minLen + 1 - i
+//@   loop 2: invariant -1 <= rangeindex && rangeindex <= rangelen && rangelen == len(t.patterns) && 0 <= i && i < len(haystack) - t.minLen + 1
+//@   loop 2: invariant forall k :: 0 <= k && k <= rangeindex ==> !occAt(haystack, t.patterns[k], i)
+//@   loop 2: invariant forall j :: 0 <= j && j < i ==> !teddyOcc(t, haystack, j)
+//@   loop 2: decreases rangelen - rangeindex
+
+// SIMD-assisted paths: every reported position is a real occurrence inside the haystack and a reported span is
+// exactly one of the literals (soundness; "never skips" for this path rests on the assumed findSIMD contract)
+//@ func (*Teddy).Find
+//@   props C16 C07 C05
+//@   arith mixed
+//@   requires wfTeddy(t) && len(haystack) <= 140737488355328
+//@   ensures result == -1 || (0 <= start && start <= result && result < len(haystack) && teddyOcc(t, haystack, result))
+//@   loop 1: invariant 0 <= accumulatedOffset && accumulatedOffset < len(haystack) && (pos == -1 || (0 <= pos && accumulatedOffset + pos < len(haystack))) && 0 <= start && sameslice(haystack, old(haystack)[start:])
+//@   loop 1: decreases len(haystack) - accumulatedOffset
+//@   loop 2: invariant 0 <= accumulatedOffset && accumulatedOffset < len(haystack) && 0 <= pos && accumulatedOffset + pos < len(haystack) && 0 <= start && sameslice(haystack, old(haystack)[start:])
+//@   loop 2: decreases bucketMask
+
+//@ func (*Teddy).FindMatch
+//@   props C16 C07 C05
+//@   arith mixed
+//@   requires wfTeddy(t) && len(haystack) <= 140737488355328
+//@   ensures result0 == -1 ==> result1 == -1
+//@   ensures result0 != -1 ==> 0 <= start && start <= result0 && result0 <= result1 && result1 <= len(haystack) && (exists k :: 0 <= k && k < len(t.patterns) && occAt(haystack, t.patterns[k], result0) && result1 == result0 + len(t.patterns[k]))
+//@   loop 1: invariant 0 <= accumulatedOffset && accumulatedOffset < len(haystack) && (pos == -1 || (0 <= pos && accumulatedOffset + pos < len(haystack))) && 0 <= start && sameslice(haystack, old(haystack)[start:])
+//@   loop 1: decreases len(haystack) - accumulatedOffset
+//@   loop 2: invariant 0 <= accumulatedOffset && accumulatedOffset < len(haystack) && 0 <= pos && accumulatedOffset + pos < len(haystack) && 0 <= start && sameslice(haystack, old(haystack)[start:])
+//@   loop 2: decreases bucketMask
+
+// ---- Fat Teddy (16 buckets): same contracts ----
+
+//@ spec func wfFatTeddy(t *FatTeddy) bool = t != nil && t.masks != nil && 0 <= t.minLen && len(t.patterns) <= 4096 && (forall b, j :: 0 <= b && b < len(t.buckets) && 0 <= j && j < len(t.buckets[b]) ==> 0 <= t.buckets[b][j] && t.buckets[b][j] < len(t.patterns)) && (forall k :: 0 <= k && k < len(t.patterns) ==> len(t.patterns[k]) >= t.minLen && len(t.patterns[k]) >= 1)
+//@ spec func fatOcc(t *FatTeddy, h []byte, i int) bool = exists k :: 0 <= k && k < len(t.patterns) && occAt(h, t.patterns[k], i)
+
+//@ func (*FatTeddy).verifyBucket
+//@   props C16 C07 C05
+//@   requires wfFatTeddy(t)
+//@   ensures result0 == -1 || (result0 == pos && 0 <= result1 && result1 < len(t.patterns) && occAt(haystack, t.patterns[result1], pos))
+//@   ensures result0 == -1 ==> result1 == -1
+//@   loop 1: invariant -1 <= rangeindex && rangeindex <= rangelen && rangelen <= 281474976710656 && 0 <= bucket && bucket < len(t.buckets) && rangelen == len(t.buckets[bucket])
+//@   loop 1: invariant forall j :: 0 <= j && j < rangelen ==> 0 <= t.buckets[bucket][j] && t.buckets[bucket][j] < len(t.patterns)
+//@   loop 1: decreases rangelen - rangeindex
+
+//@ func (*FatTeddy).findScalar
+//@   props C16 C07 C05
+//@   requires wfFatTeddy(t) && 0 <= start && start <= 140737488355328 && len(haystack) <= 140737488355328
+//@   ensures result == -1 ==> (forall i :: 0 <= i ==> !fatOcc(t, haystack, i))
+//@   ensures result != -1 ==> start <= result && fatOcc(t, haystack, result - start) && (forall i :: 0 <= i && i < result - start ==> !fatOcc(t, haystack, i))
+//@   loop 1: invariant 0 <= i
+//@   loop 1: invariant forall j :: 0 <= j && j < i ==> !fatOcc(t, haystack, j)
+//@   loop 1: decreases len(haystack) - t.minLen + 1 - i
+//@   loop 2: invariant -1 <= rangeindex && rangeindex <= rangelen && rangelen == len(t.patterns) && 0 <= i && i < len(haystack) - t.minLen + 1
+//@   loop 2: invariant forall k :: 0 <= k && k <= rangeindex ==> !occAt(haystack, t.patterns[k], i)
+//@   loop 2: invariant forall j :: 0 <= j && j < i ==> !fatOcc(t, haystack, j)
+//@   loop 2: decreases rangelen - rangeindex
+
+// fingerprint scan (assembly on amd64, scalar fallback elsewhere): ASSUMED shape contract
+//@ trusted func (*FatTeddy).findSIMD
+//@   requires wfFatTeddy(t)
+//@   ensures pos == -1 || (0 <= pos && pos < len(haystack))
+
+//@ func (*FatTeddy).findMatchScalar
+//@   props C16 C07 C05
+//@   requires wfFatTeddy(t) && 0 <= start && start <= 140737488355328 && len(haystack) <= 140737488355328
+//@   ensures result0 == -1 ==> result1 == -1 && (forall i :: 0 <= i ==> !fatOcc(t, haystack, i))
+//@   ensures result0 != -1 ==> start <= result0 && fatOcc(t, haystack, result0 - start) && (forall i :: 0 <= i && i < result0 - start ==> !fatOcc(t, haystack, i)) && result0 <= result1 && result1 <= start + len(haystack)
+//@   ensures result0 != -1 ==> (exists k :: 0 <= k && k < len(t.patterns) && occAt(haystack, t.patterns[k], result0 - start) && result1 == result0 + len(t.patterns[k]))
+//@   loop 1: invariant 0 <= i
+//@   loop 1: invariant forall j :: 0 <= j && j < i ==> !fatOcc(t, haystack, j)
+//@   loop 1: decreases len(haystack) - t.minLen + 1 - i
+//@   loop 2: invariant -1 <= rangeindex && rangeindex <= rangelen && rangelen == len(t.patterns) && 0 <= i && i < len(haystack) - t.minLen + 1
+//@   loop 2: invariant forall k :: 0 <= k && k <= rangeindex ==> !occAt(haystack, t.patterns[k], i)
+//@   loop 2: invariant forall j :: 0 <= j && j < i ==> !fatOcc(t, haystack, j)
+//@   loop 2: decreases rangelen - rangeindex
+
+// SIMD-assisted paths: every reported position is a real occurrence inside the haystack and a reported span is
+// exactly one of the literals (soundness; "never skips" for this path rests on the assumed findSIMD contract)
+//@ func (*FatTeddy).Find
+//@   props C16 C07 C05
+//@   arith mixed
+//@   requires wfFatTeddy(t) && len(haystack) <= 140737488355328
+//@   ensures result == -1 || (0 <= start && start <= result && result < len(haystack) && fatOcc(t, haystack, result))
+//@   loop 1: invariant 0 <= accumulatedOffset && accumulatedOffset < len(remaining) && (pos == -1 || (0 <= pos && accumulatedOffset + pos < len(remaining))) && 0 <= start && sameslice(remaining, haystack[start:])
+//@   loop 1: decreases len(remaining) - accumulatedOffset
+//@   loop 2: invariant 0 <= accumulatedOffset && accumulatedOffset < len(remaining) && 0 <= pos && accumulatedOffset + pos < len(remaining) && 0 <= start && sameslice(remaining, haystack[start:])
+//@   loop 2: decreases bucketMask
+
+//@ func (*FatTeddy).FindMatch
+//@   props C16 C07 C05
+//@   arith mixed
+//@   requires wfFatTeddy(t) && len(haystack) <= 140737488355328
+//@   ensures result0 == -1 ==> result1 == -1
+//@   ensures result0 != -1 ==> 0 <= start && start <= result0 && result0 <= result1 && result1 <= len(haystack) && (exists k :: 0 <= k && k < len(t.patterns) && occAt(haystack, t.patterns[k], result0) && result1 == result0 + len(t.patterns[k]))
+//@   loop 1: invariant 0 <= accumulatedOffset && accumulatedOffset < len(haystack) && (pos == -1 || (0 <= pos && accumulatedOffset + pos < len(haystack))) && 0 <= start && sameslice(haystack, old(haystack)[start:])
+//@   loop 1: decreases len(haystack) - accumulatedOffset
+//@   loop 2: invariant 0 <= accumulatedOffset && accumulatedOffset < len(haystack) && 0 <= pos && accumulatedOffset + pos < len(haystack) && 0 <= start && sameslice(haystack, old(haystack)[start:])
+//@   loop 2: decreases bucketMask
+
+// ---- Aho-Corasick prefilter: external automaton, contract ASSUMED (coregx/ahocorasick) ----
+//@ trusted func (*github.com/coregx/ahocorasick.Automaton).Find
+//@   ensures result1 ==> start <= result0.Start && result0.Start <= result0.End && result0.End <= len(haystack)
+
+//@ func (*AhoCorasickPrefilter).Find
+//@   props C16 C07
+//@   requires p != nil && p.ac != nil
+//@   ensures result == -1 || (0 <= start && start <= result && result <= len(haystack))
+
+// ---- effectiveness tracker ----
+// checkEffectiveness uses floating point ratios (outside the verified subset): frame ASSUMED
+//@ trusted func (*Tracker).checkEffectiveness
+//@   modifies t.active, t.candidates, t.confirms
+
+// The property demands the interface contract of every prefilter, the tracker included.
+//@ func (*Tracker).Find
+//@   props C16
+//@   requires t != nil && start >= 0 && t.candidates < 18446744073709551615
+//@   modifies t.active, t.candidates, t.confirms
+//@   ensures pfFirst(t.inner, haystack, start, result)
+
+//@ func (*TrackedPrefilter).Find
+//@   props C16 C07
+//@   requires tp != nil && tp.Tracker != nil && start >= 0 && tp.Tracker.candidates < 18446744073709551615
+//@   modifies tp.Tracker.active, tp.Tracker.candidates, tp.Tracker.confirms
